@@ -48,7 +48,7 @@ Definition ttl_of_code (c : Z) : Z :=
 
 Definition init_ps (g : cfg) : pstore :=
   mkPS (fold_left (fun b x => let '(p, a, t) := x in a_add b p [(a, 0)] t) (g_init g) a_init)
-       [] [] [] (g_maxprotos g).
+       [] [] [] (g_maxprotos g) (g_pcap g).
 Definition init_sys (g : cfg) : sys := mkSys (init_ps g) [] [] [] [] [] [] 1.
 
 Definition gstep (g : cfg) := step sym_v id_of_n (inline_of (g_inline g)) (g_conns g).
@@ -258,17 +258,28 @@ Fixpoint first_diff (i : Z) (a b : list pdump) : Z :=
   | _, _ => -1
   end.
 
-(* The model is the book whose per-peer cap on unconnected addresses never
-   binds (as in C09).  When the cap is enabled and the uncapped book would hold
-   more than that many unconnected addresses of one peer, the real book has
-   evicted some (which ones depends on map iteration order): the history has
-   left the modelled domain and the comparison stops; the monitor still judges
-   every step of such a case. *)
-Definition cap_binds (g : cfg) (s : sys) : bool :=
-  (0 <? g_pcap g) &&
-  existsb (fun p => g_pcap g <? zlen (filter (fun e => (ep e =? p) && negb (Abs.conn (ettl e)))
-                                             (a_ents (ps_book (s_ps s)))))
-          (peers_of (g_np g)).
+(* The model's book carries the per-peer cap, but which of several entries
+   with the same expiry is evicted depends on the implementation's map iteration
+   order.  Once a step evicted, the history has left the domain in which model
+   and implementation must agree observation by observation and the comparison
+   stops; the monitor still judges every step of such a case. *)
+Definition op_evicts (s : pstore) (o : psop) : bool :=
+  match o with
+  | PAddAddrs p l ttl =>
+      if ttl <=? 0 then false
+      else snd (fold_left (fun (st : list aent * bool) a =>
+                             (cadd_one (ps_pcap s) p ttl (a_now (ps_book s)) (fst st) a,
+                              snd st || must_evict (ps_pcap s) p ttl (fst st) a))
+                          (clean_addrs (map (to_raw p) (filter has_transport l)))
+                          (a_ents (ps_book s), false))
+  | _ => false
+  end.
+
+Fixpoint calls_evict (g : cfg) (s : pstore) (l : list psop) : bool :=
+  match l with
+  | [] => false
+  | o :: r => op_evicts s o || calls_evict g (apply_op id_of_n (inline_of (g_inline g)) s o) r
+  end.
 
 Fixpoint conform_run (g : cfg) (s : sys) (i : Z) (tr : list (op * wobs)) : list Z :=
   match tr with
@@ -276,7 +287,7 @@ Fixpoint conform_run (g : cfg) (s : sys) (i : Z) (tr : list (op * wobs)) : list 
   | (o, x) :: r =>
       let okord := match o with ODisconnected c ord => order_ok g s c ord | _ => true end in
       let '(s', mo) := gstep g s o in
-      if cap_binds g s' then []
+      if calls_evict g (s_ps s) (o_calls mo) then []
       else if negb okord then [ERR_MISMATCH; i; 1]
       else if negb (list_eqb psop_eqb (o_calls mo) (wo_calls x))
            then [ERR_MISMATCH; i; 2; zlen (o_calls mo); zlen (wo_calls x)]
@@ -552,9 +563,15 @@ Fixpoint orders_ok (g : cfg) (s : sys) (ops : list op) : bool :=
               && orders_ok g (fst (gstep g s o)) r
   end.
 
+Fixpoint run_evicts (g : cfg) (s : sys) (ops : list op) : bool :=
+  match ops with
+  | [] => false
+  | o :: r => let '(s', mo) := gstep g s o in calls_evict g (s_ps s) (o_calls mo) || run_evicts g s' r
+  end.
+
 Definition conform_race (g : cfg) (ops : list op) (final : list pdump) : list Z :=
   let s := run g (init_sys g) ops in
-  if cap_binds g s then []
+  if run_evicts g (init_sys g) ops then []
   else if negb (orders_ok g (init_sys g) ops) then [ERR_MISMATCH; zlen ops; 1]
   else let d := first_diff 1 (dump_all (g_np g) (s_ps s)) final in
        if d =? 0 then [] else [ERR_MISMATCH; zlen ops; 6; d].
